@@ -430,6 +430,31 @@ private:"""),
                 stats.m_mean(i) = 0.0;""", new="""                stats.m_max(i)  = 0.0;
                 stats.m_max(i)  = 0.0;
                 stats.m_mean(i) = 0.0;"""),
+    dict(property="C02", name="gsample-step-back-by-half", rule="R-C02-7", file="src/solver/gsample/lsearch.h",
+         old="                    t *= m_gamma;\n                    state.update", new="                    t *= 0.5;\n                    state.update"),
+    dict(property="C02", name="gsample-adopts-failed-doubling-step", rule="R-C02-7", file="src/solver/gsample/lsearch.h",
+         old="                    t *= m_gamma;\n                    state.update", new="                    state.update"),
+    dict(property="C02", name="gsample-bisection-adopts-on-failure", rule="R-C02-7", file="src/solver/gsample/lsearch.h",
+         old="if (t *= m_gamma, fx = function.vgrad(x = state.x() - t * d); fx < state.fx() - t * df)",
+         new="if (t *= m_gamma, fx = function.vgrad(x = state.x() - t * d); fx >= state.fx() - t * df)"),
+    dict(property="C02", name="gsample-bisection-adopts-other-direction", rule="R-C02-7", file="src/solver/gsample/lsearch.h",
+         old="""                if (t *= m_gamma, fx = function.vgrad(x = state.x() - t * d); fx < state.fx() - t * df)
+                {
+                    state.update(x = state.x() - t * d);""",
+         new="""                if (t *= m_gamma, fx = function.vgrad(x = state.x() - t * d); fx < state.fx() - t * df)
+                {
+                    state.update(x = state.x() - t * g);"""),
+    dict(property="C08", name="drop-ors-the-flag-into-the-state-byte", rule="R-C08-10", file="src/generator.cpp",
+         old="    m_feature_infos(feature) = 0x01;", new="    m_feature_infos(feature) |= 0x01;"),
+    dict(property="C08", name="shuffle-adds-to-the-state-byte", rule="R-C08-10", file="src/generator.cpp",
+         old="    m_feature_infos(feature) = 0x02;", new="    m_feature_infos(feature) += 0x02;"),
+    dict(property="C08", name="should-drop-tests-bit-of-exclusive-states", rule="R-C08-10", file="src/generator.cpp",
+         old="    return m_feature_infos(feature) == 0x01;", new="    return (m_feature_infos(feature) & 0x03) != 0;"),
+    dict(property="C14", name="make-scaling-skipped-for-small-range", rule="R-C14-8", file="src/dataset/stats.cpp",
+         old="    if (stats.m_min.size() > 0)\n    {\n        switch (scaling)", new="    if (stats.m_min.size() > 0 && stats.m_div_range.max() < 1e+6)\n    {\n        switch (scaling)"),
+    dict(property="C14", name="make-scaling-early-return-without-samples", rule="R-C14-8", file="src/dataset/stats.cpp",
+         old="    // NB: check that scalar statistics are initialized!\n    if (stats.m_min.size() > 0)",
+         new="    if (stats.m_samples.sum() == 0)\n    {\n        return std::make_pair(w, b);\n    }\n    if (stats.m_min.size() > 0)"),
     dict(property="C14", name="flatten-mask-only-sclass", rule="R-C14-4", file="src/dataset/stats.cpp",
          old="const auto isclass     = feature.is_sclass() || feature.is_mclass();", new="const auto isclass     = feature.is_sclass();"),
     dict(property="C14", name="upscale-bias-after-weights", rule="R-C14-5", file="src/dataset/stats.cpp",
@@ -1212,6 +1237,26 @@ BENIGN = [
          old="critical(feature < 0 || feature >= features(),", new="critical(0 > feature || features() <= feature,"),
     dict(property="C20", name="bin-query-via-double-local", file="include/nano/core/histogram.h",
          old="const auto svalue = static_cast<scalar_t>(value); // NOLINT(cert-str34-c)", new="const double svalue = value;"),
+    dict(property="C02", name="gsample-step-back-spelled-out", file="src/solver/gsample/lsearch.h",
+         old="                    t *= m_gamma;\n                    state.update", new="                    t = m_gamma * t;\n                    state.update"),
+    dict(property="C02", name="gsample-doubling-remembers-previous-step", file="src/solver/gsample/lsearch.h",
+         old="""                if (t /= m_gamma, fx = function.vgrad(x = state.x() - t * d); fx >= state.fx() - t * df)
+                {
+                    t *= m_gamma;
+                    state.update(x = state.x() - t * d);
+                    return t;""",
+         new="""                const auto tprev = t;
+                if (t /= m_gamma, fx = function.vgrad(x = state.x() - t * d); !(fx < state.fx() - t * df))
+                {
+                    state.update(x = state.x() - tprev * d);
+                    return tprev;"""),
+    dict(property="C08", name="drop-shuffle-as-independent-bits", file="src/generator.cpp",
+         old="    m_feature_infos(feature) = 0x01;", new="    m_feature_infos(feature) |= 0x01;",
+         more=[("    m_feature_infos(feature) = 0x02;", "    m_feature_infos(feature) |= 0x02;"),
+               ("    return m_feature_infos(feature) == 0x01;", "    return (m_feature_infos(feature) & 0x01) != 0;"),
+               ("    if (m_feature_infos(feature) == 0x02)", "    if ((m_feature_infos(feature) & 0x02) != 0)")]),
+    dict(property="C14", name="make-scaling-guard-on-other-member", file="src/dataset/stats.cpp",
+         old="    if (stats.m_min.size() > 0)\n    {\n        switch (scaling)", new="    if (0 != stats.m_samples.size())\n    {\n        switch (scaling)"),
     dict(property="C14", name="scale-mean-reassociated", file="src/dataset/stats.cpp",
          old="            array      = (array - m_mean.array()) * m_div_range.array();", new="            array      = array * m_div_range.array() - m_mean.array() * m_div_range.array();"),
     dict(property="C14", name="variance-abs-instead-of-max", file="src/dataset/stats.cpp",
